@@ -1284,7 +1284,7 @@ def world_step(ctx, T, only):
     stats["rejected"] = judge_sessions(ctx, sessions, results, "judge executed sessions, call by call on its own object (HtmMatchTrace)")
     ctx.log("world: %(sessions)d sessions, %(executions)d executions, %(calls)d calls, %(interleaved)d with a matcher re-used "
             "after another depth was built, %(rejected)d rejected" % stats)
-    if stats["interleaved"] < 50 or stats["scribbled"] < 10 or stats["dropped"] < 10 or stats["pairs"] < stats["executions"]:
+    if not stats["rejected"] and not ctx.violations and (stats["interleaved"] < 50 or stats["scribbled"] < 10 or stats["dropped"] < 10 or stats["pairs"] < stats["executions"]):
         raise MachineryError("world step vacuous: %s" % stats)
     return stats
 
